@@ -176,6 +176,32 @@ fn history_passes(ctx: &Ctx, st: &mut Stats, a: i32, b: i32) {
         }
     }
     st.add("history.descending_pass_dates", (b - a) as u64);
+    // application flow (what the command line tool does for every date it prints): prayer times for the date, then its
+    // Hijri date, on the same thread — per-thread state left behind by the OTHER public API must not leak into the
+    // conversion. Every date of the shard's range.
+    {
+        let p = {
+            let mut p = Params::new(Method::Mwl);
+            p.extreme_latitude_method = ExtremeLatitudeMethod::None;
+            p
+        };
+        let l = loc(21.4, 39.8, 0.0, 3.0);
+        let mut day = a;
+        while day < b {
+            let date = from_ce(day);
+            let _ = super::guarded(|| prayer_times_dt(&p, l, date, None));
+            judge(st, day, "after_prayer_times_for_the_same_date");
+            if day % 64 == 0 {
+                // and the Qibla in between now and then
+                let _ = super::guarded(|| Qibla::new(l.coords).degrees());
+            }
+            day += 1;
+            if day % 4096 == 0 {
+                st.tick();
+            }
+        }
+        st.add("history.dates_converted_right_after_prayer_times_for_the_same_date", (b - a) as u64);
+    }
     let mut r = Rng::new(ctx.seed, 1701, ctx.shard);
     let n = ctx.quota(800_000, 16_000_000);
     for k in 0..n {
